@@ -127,6 +127,9 @@ type DocCase struct {
 	// Isolate: the options are switched on on ANOTHER template of the same set (after both were compiled); Src must
 	// render as if no option were on
 	Isolate bool `json:"isolate,omitempty"`
+	// Blocks: ExecuteBlocks(["a", "d"]) on the child instead of Execute: "a" is the child's own block, "d" exists in
+	// the base only (the base's text carries whitespace too, TwinBase is its hand-stripped form)
+	Blocks bool `json:"blocks,omitempty"`
 	// ViaUpdate: one compiled template is walked through all four settings with Options.Update (both on first), and
 	// must render each time like the source hand-stripped for THAT setting; Twins holds the four hand-stripped sources
 	// in the order TT, FT, TF, FF
@@ -144,6 +147,9 @@ func (c *DocCase) ID() string {
 	}
 	if c.Isolate {
 		id += " options-on-another-template"
+	}
+	if c.Blocks {
+		id += " ExecuteBlocks"
 	}
 	if c.ViaUpdate {
 		id += " via-Options.Update"
@@ -175,6 +181,37 @@ func (c *DocCase) Exec(t *eng.T) {
 			}
 		}
 		t.Outcome("options-update")
+		return
+	}
+	if c.Blocks {
+		blocksOf := func(files map[string]string, tb, ls bool) px.Out {
+			set, _ := px.NewSet(files)
+			set.Options.TrimBlocks, set.Options.LStripBlocks = tb, ls
+			tpl, out := px.CompileFile(set, "/main")
+			if tpl == nil {
+				return out
+			}
+			var res map[string]string
+			var err error
+			site, msg, pan := eng.Protect(func() { res, err = tpl.ExecuteBlocks(ctx(), []string{"a", "d"}) })
+			switch {
+			case pan:
+				return px.Out{Panic: site, PanicMsg: msg}
+			case err != nil:
+				return px.Out{Err: err.Error()}
+			}
+			return px.Out{S: fmt.Sprintf("a=%q d=%q", res["a"], res["d"])}
+		}
+		g := blocksOf(map[string]string{"/main": string(c.Src), "/base": string(c.Base)}, c.TrimBlocks, c.LStrip)
+		w := blocksOf(map[string]string{"/main": string(c.Twin), "/base": string(c.TwinBase)}, false, false)
+		t.Outcome(g.String())
+		if w.Failed() {
+			t.Fail("harness:twin-fails", "%s: the hand-stripped twin does not render its blocks: %s", c.ID(), w)
+			return
+		}
+		if g.String() != w.String() {
+			t.Fail("ws:execute-blocks", "%s: ExecuteBlocks gives %s; the hand-stripped child %q and base %q give %s", c.ID(), g, string(c.Twin), string(c.TwinBase), w)
+		}
 		return
 	}
 	if c.Isolate {
@@ -485,6 +522,26 @@ func run(r *eng.Runner) {
 			return !r.Stopped()
 		})
 	}
+	// characters that are blank to Unicode but not to the template language, inside and at the edges of the runs
+	wU := []string{"", "\u00a0", " \u00a0", "\u00a0 \n", "\n\u2003\t", "\v ", "\u0085", " \f"}
+	r.Group("unicode-blanks", "c15.doc", fmt.Sprintf("a W C W b with W over %d runs that mix the four whitespace characters with U+00A0, U+2003, U+0085, VT and FF (none of which is whitespace for `-`, TrimBlocks or LStripBlocks), every dash subset, body whitespace over the same runs (diagonal), all 4 option settings", len(wU)))
+	for _, c := range cs {
+		enum.Tuples(len(wU), 2, func(wi []int) bool {
+			for mask := 0; mask < 1<<c.nd; mask++ {
+				for bi := range wU {
+					if c.nd != 4 && bi > 0 {
+						break
+					}
+					var items []item
+					items = append(items, item{text: "a" + wU[wi[0]]})
+					items = append(items, c.items(flags(mask, c.nd), wU[bi], wU[(bi+3)%len(wU)])...)
+					items = append(items, item{text: wU[wi[1]] + "b"})
+					emitDoc(r, items, c.name)
+				}
+			}
+			return !r.Stopped()
+		})
+	}
 	w2 := []string{"", " ", "\n", " \n\t ", "\r"}
 	r.Group("two-constructs", "c15.doc", "W C1 W C2 W (and with text between) with W over 4 runs, all construct pairs, every dash subset of C1 x {none, all} of C2 (and vice versa), 4 option settings")
 	blank := func(c construct) bool { return strings.HasSuffix(c.name, "-blank") }
@@ -547,6 +604,30 @@ func run(r *eng.Runner) {
 					for _, after := range []bool{false, true} {
 						r.Do(&DocCase{Src: eng.Q(src), Twin: eng.Q(twin), TrimBlocks: tb, LStrip: ls, Kind: "inherit:" + c.name, Base: baseSrc, OptsAfter: after})
 					}
+				}
+			}
+			return !r.Stopped()
+		})
+	}
+	// ExecuteBlocks: a block of the child and a block only the base has, both with whitespace, options on the set
+	r.Group("execute-blocks", "c15.doc", "ExecuteBlocks on a child for its own block and a block only the base defines, both holding W a W C W b W (W over 5 runs, dash subsets none / all / alternating), options on the set (3 settings): each block equals the block of the hand-stripped templates")
+	for _, c := range cs {
+		enum.Tuples(len(w2), 4, func(wi []int) bool {
+			for _, mask := range []int{0, 1<<c.nd - 1, 5 & (1<<c.nd - 1), 10 & (1<<c.nd - 1)} {
+				doc := func(a, b string) []item {
+					var d []item
+					d = append(d, item{text: w2[wi[0]] + a + w2[wi[1]]})
+					d = append(d, c.items(flags(mask, c.nd), "\n ", " \n")...)
+					return append(d, item{text: w2[wi[2]] + b + w2[wi[3]]})
+				}
+				child := []item{{tag: `extends "base"`, block: true}, {tag: "block a", block: true}}
+				child = append(append(child, doc("a", "b")...), item{tag: "endblock", block: true})
+				base := []item{{text: "["}, {tag: "block a", block: true}, {text: "x"}, {tag: "endblock", block: true}, {text: "|"}, {tag: "block d", block: true}}
+				base = append(append(base, doc("p", "q")...), item{tag: "endblock", block: true}, item{text: "]"})
+				for opt := 1; opt < 4; opt++ {
+					tb, ls := opt&1 != 0, opt&2 != 0
+					r.Do(&DocCase{Src: eng.Q(source(child)), Twin: eng.Q(source(handStrip(child, tb, ls))), Base: eng.Q(source(base)), TwinBase: eng.Q(source(handStrip(base, tb, ls))),
+						TrimBlocks: tb, LStrip: ls, Kind: "blocks:" + c.name, Blocks: true})
 				}
 			}
 			return !r.Stopped()
